@@ -131,7 +131,8 @@ def _make_to(estimator, cons, obj, grid_size, flip, via_set_params):
     if not via_set_params:
         return ThresholdOptimizer(estimator=estimator, constraints=cons, objective=obj, grid_size=grid_size, flip=flip, prefit=True, predict_method=pm)
     to = ThresholdOptimizer(estimator=estimator, prefit=True)
-    to.set_params(constraints=cons, objective=obj, grid_size=grid_size, flip=flip, predict_method=pm)
+    # parameters that come out of a numpy array / ParameterGrid are numpy scalars: flip=np.True_ is truthy but is not the object True
+    to.set_params(constraints=cons, objective=obj, grid_size=grid_size, flip=np.bool_(flip), predict_method=pm)
     return to
 
 
